@@ -18,6 +18,7 @@ import (
 	"os"
 	"os/exec"
 	"sort"
+	"sync"
 	"time"
 )
 
@@ -39,6 +40,12 @@ type Suite struct {
 	Judge func(c *Ctx, req map[string]any, impl any, orc map[string]any) []Finding
 	// optional: structured shrinking candidates for a failing request
 	Shrink func(req map[string]any) []map[string]any
+	// Parallel: the implementation calls of this suite are pure functions of the request: after the sequential run
+	// a sample of them is executed again from several goroutines at once and must give the same results
+	// (a package-level scratch buffer / hasher shared without a lock makes them differ). ParKey strips what is
+	// legitimately run-dependent (allocation counters) from a result before comparison.
+	Parallel bool
+	ParKey   func(impl any) any
 }
 
 type Ctx struct {
@@ -175,8 +182,16 @@ func main() {
 	}
 	seen := map[string]bool{}
 	perRegion := map[string]int{}
+	seqImpl := make([]string, len(ctx.reqs))
 	for i, req := range ctx.reqs {
 		impl := runImplO(s, req, resps[i])
+		if s.Parallel && req["isolate"] != true {
+			k := impl
+			if s.ParKey != nil {
+				k = s.ParKey(impl)
+			}
+			seqImpl[i] = canon(k)
+		}
 		switch implKind(impl) {
 		case "ok":
 			res.Accepted++
@@ -212,6 +227,9 @@ func main() {
 			res.Samples = append(res.Samples, map[string]any{"req": stripI(req), "impl": impl, "oracle": resps[i]})
 		}
 	}
+	if s.Parallel && os.Getenv("VERIF_CHILD") != "1" {
+		parallelRerun(s, ctx, resps, seqImpl, res, perRegion)
+	}
 	res.PerRegion = perRegion
 	res.Cases = len(ctx.reqs)
 	res.Distinct = len(seen)
@@ -233,6 +251,68 @@ func main() {
 	}
 	if res.NFindings > 0 {
 		os.Exit(1)
+	}
+}
+
+// parallelRerun executes a sample of the (pure) implementation calls again from 8 goroutines at once. Every goroutine
+// walks the whole sample, starting at a different offset, so that the same entry points run concurrently on different
+// inputs; each result must equal the one obtained sequentially.
+func parallelRerun(s *Suite, ctx *Ctx, resps []map[string]any, seq []string, res *Result, perRegion map[string]int) {
+	var idx []int
+	limit := 2500
+	if ctx.Tier == "thorough" {
+		limit = 20000
+	}
+	stride := len(ctx.reqs)/limit + 1
+	for i := 0; i < len(ctx.reqs); i += stride {
+		if seq[i] != "" && ctx.reqs[i]["isolate"] != true {
+			idx = append(idx, i)
+		}
+	}
+	if len(idx) < 2 {
+		return
+	}
+	const G = 8
+	type diff struct {
+		i   int
+		got string
+	}
+	var mu sync.Mutex
+	var diffs []diff
+	var wg sync.WaitGroup
+	for g := 0; g < G; g++ {
+		wg.Add(1)
+		go func(g int) {
+			defer wg.Done()
+			off := g * len(idx) / G
+			for n := 0; n < len(idx); n++ {
+				i := idx[(off+n)%len(idx)]
+				impl := runImplO(s, ctx.reqs[i], resps[i])
+				k := impl
+				if s.ParKey != nil && impl != "panic" {
+					k = s.ParKey(impl)
+				}
+				if c := canon(k); c != seq[i] {
+					mu.Lock()
+					if len(diffs) < 50 {
+						diffs = append(diffs, diff{i, c})
+					}
+					mu.Unlock()
+				}
+			}
+		}(g)
+	}
+	wg.Wait()
+	ctx.Notes["parallel_rerun_cases"] = len(idx)
+	ctx.Notes["parallel_rerun_goroutines"] = G
+	for _, d := range diffs {
+		f := Finding{Kind: "violation", Region: "concurrent-use", Detail: "the result for this input is different (or a panic) when other calls run concurrently: sequential=" + trunc(seq[d.i], 200) + " concurrent=" + trunc(d.got, 200),
+			Req: stripI(ctx.reqs[d.i]), Oracle: resps[d.i]}
+		res.NFindings++
+		perRegion["violation/concurrent-use"]++
+		if perRegion["violation/concurrent-use"] <= 5 {
+			res.Findings = append(res.Findings, f)
+		}
 	}
 }
 
